@@ -129,8 +129,8 @@ CtComp(g) ==
 CtVecAcc(g) ==
   CASE g.k = "SE2"    -> << <<"trans", 1, 2>> >>
     [] g.k = "SO3"    -> << <<"quat", 1, 4>> >>
-    [] g.k = "SE3"    -> << <<"trans", 1, 3>>, <<"quat", 4, 4>> >>
-    [] g.k \in {"SE_2_3", "SGal3"} -> << <<"trans", 1, 3>>, <<"quat", 4, 4>>, <<"vel", 8, 3>> >>
+    [] g.k = "SE3"    -> << <<"trans", 1, 3>>, <<"quat", 4, 4>>, <<"asso3c", 4, 4>>, <<"asso3m", 4, 4>> >>
+    [] g.k \in {"SE_2_3", "SGal3"} -> << <<"trans", 1, 3>>, <<"quat", 4, 4>>, <<"vel", 8, 3>>, <<"asso3c", 4, 4>>, <<"asso3m", 4, 4>> >>
     [] OTHER          -> << >>
 CtHasIso(g) == g.k \in {"SE2", "SE3", "SE_2_3", "SGal3"}
 CtFb == {"parts", "angle", "tc", "iso", "xyzw", "so3"}
@@ -220,7 +220,7 @@ CtCastItems(ev) ==
            \o (IF RotDim(g) = 0 THEN << >> ELSE << Item("cast_valid", FRatioMilli(gapR, bandT)) >>))
 
 -----------------------------------------------------------------------------
-CtVecFields == {"a", "r", "r2", "c", "trans", "quat", "vel", "fb_parts", "fb_angle", "fb_tc", "fb_iso", "fb_xyzw", "fb_so3"}
+CtVecFields == {"a", "r", "r2", "c", "trans", "quat", "vel", "asso3c", "asso3m", "fb_parts", "fb_angle", "fb_tc", "fb_iso", "fb_xyzw", "fb_so3"}
 CtMatFields == {"rot", "tr", "iso"}
 CtScaFields == {"angle", "real", "imag", "x", "y", "z", "w", "vx", "vy", "vz", "time"}
 CtArgVec == {"tr", "vel", "q", "axis", "c", "c0"}
